@@ -3,12 +3,12 @@ module sioverif/timed
 go 1.26.8
 
 require (
+	github.com/deckarep/golang-set/v2 v2.6.0
 	github.com/karagenc/socket.io-go v0.0.0
 	nhooyr.io/websocket v1.8.11
 )
 
 require (
-	github.com/deckarep/golang-set/v2 v2.6.0 // indirect
 	github.com/fatih/color v1.17.0 // indirect
 	github.com/fatih/structs v1.1.0 // indirect
 	github.com/karagenc/yeast v0.1.1 // indirect
